@@ -215,6 +215,11 @@ def scale_cases(tier):
         (b"d4:infoi" + b"9" * (200000 * k) + b"ee", "err", "scale:int-digits"),
         (b"d4:infod6:lengthi1e4:name%d:" % (2000000 * k) + b"n" * (2000000 * k) + b"12:piece lengthi4e6:pieces20:" + bytes(20) + b"ee", "ok", "scale:long-string"),
         (b"d" + b"".join(b"8:%s" % key(i) + b"l" * 3 + b"e" * 3 for i in range(50000 * k)) + b"e", "err", "scale:dict-of-lists"),
+        # deep AND wide (cost = length x depth under any per-level copy of the subtree); 1000 levels is far from the native
+        # stack limit (known finding D4d starts at several thousand)
+        (b"d4:info" + b"d1:a" * 1000 + b"l" + b"1:x" * (200000 * k) + b"e" + b"e" * 1000 + b"e", "err", "scale:deep-and-wide-dict"),
+        (b"d4:info" + b"l" * 1000 + b"i7e" * (200000 * k) + b"e" * 1000 + b"e", "err", "scale:deep-and-wide-list"),
+        (b"d1:a" + b"d1:a" * 1000 + b"l" + b"0:" * (200000 * k) + b"e" + b"e" * 1000 + b"4:infod6:lengthi1e4:name1:t12:piece lengthi4e6:pieces20:" + bytes(20) + b"ee", "ok", "scale:deep-and-wide-junk-key"),
         # keys out of order only at the very end: everything before must have been accepted in linear time
         (b"d" + b"".join(b"8:%s0:" % key(i) for i in range(100000 * k)) + b"1:a0:e", "err", "scale:late-order-error"),
     ]
